@@ -351,6 +351,44 @@ pub fn check_count(n: usize, comment: &[u8], st: &mut Stats, order: u64) {
             st.viol(format!("count/reader-panic/{}", panic_site(&p)), p, case(), order)
         }
     }
+    // the archive re-opened for append, one entry added, finished: the count moves on by one (across 65535 / 65536 too)
+    if ok && n >= 65534 {
+        let r = guard(|| -> Result<(), String> {
+            sf.seek(SeekFrom::Start(0)).map_err(|e| e.to_string())?;
+            {
+                let mut zw = zip::ZipWriter::new_append(&mut sf).map_err(|e| format!("new_append: {e}"))?;
+                zw.start_file("appended", FOpts::m(0).to_zip()).map_err(|e| format!("start_file: {e}"))?;
+                zw.write_all(b"appended").map_err(|e| e.to_string())?;
+                zw.finish().map_err(|e| format!("finish: {e}"))?;
+            }
+            let mut ar = zip::ZipArchive::new(sf.clone()).map_err(|e| format!("re-open: {e}"))?;
+            if ar.len() != n + 1 || ar.comment() != comment {
+                return Err(format!("{} entries after the append round", ar.len()));
+            }
+            for (i, name) in [(0usize, "n0".to_string()), (n - 1, format!("n{}", n - 1)), (n, "appended".to_string())] {
+                let f = ar.by_index(i).map_err(|e| format!("by_index({i}): {e}"))?;
+                if f.name() != name {
+                    return Err(format!("entry {i} is named {:?}", f.name()));
+                }
+            }
+            let p = zipparse::validate(&sf, &Opts::lenient()).map_err(|e| format!("independent parser: {e}"))?;
+            if p.entries.len() != n + 1 || p.count != n as u64 + 1 {
+                return Err(format!("independent parser sees {} entries", p.entries.len()));
+            }
+            Ok(())
+        });
+        match r {
+            Ok(Ok(())) => st.class("count+1-after-append"),
+            Ok(Err(e)) => {
+                ok = false;
+                st.viol("count/append-round", format!("{n} entries, re-opened with new_append, one entry added: {e}"), case(), order)
+            }
+            Err(p) => {
+                ok = false;
+                st.viol(format!("count/append-panic/{}", panic_site(&p)), p, case(), order)
+            }
+        }
+    }
     st.class(if ok { "count-recovered" } else { "COUNT-MISMATCH" });
 }
 
@@ -869,6 +907,8 @@ pub fn run(args: &Args) -> i32 {
         }
         cases.push(Case { label: "deflated entry of 5 GiB of zeros".into(), items: vec![Item { size: 5 << 30, large: true, method: 8, password: false, start: 0 }], comment: vec![] });
     }
+    // no entry needs ZIP64 for itself, the central directory does (it starts beyond 4 GiB)
+    cases.push(Case { label: "two entries of 2.2 GiB each (not large): only the directory offset needs ZIP64".into(), items: vec![it(2_362_232_012, false), it(2_362_232_012, false)], comment: b"d".to_vec() });
     // entries beyond 4 GiB that are started through the extra-data and alignment calls (the large-file promise must survive them)
     for (st_, what) in [(1u8, "start_file_with_extra_data"), (2, "start_file_aligned"), (3, "start_file_with_extra_data (central-only record)")] {
         if thorough || st_ != 3 {
